@@ -25,21 +25,50 @@ def draw_coord(rnd, kind):
     if kind == 2: return rnd.uniform(-3, 3)
     if kind == 3: return rnd.choice([0.0, -0.0, 5e-324, -5e-324, 2.2250738585072014e-308, 1e-200, 1e-160, 1.5e-154])
     if kind == 4: return rnd.uniform(-1, 1) * 10.0 ** rnd.randint(-150, 150)
+    if kind == 6:      # Python ints (not floats), also large ones: exactly representable, so the model's doubles are the same numbers
+        return rnd.choice([rnd.randint(-9, 9), rnd.randint(-2 ** 33, 2 ** 33), rnd.choice([-1, 1]) * 2 ** rnd.randint(30, 45) + rnd.randint(-3, 3)])
     return math.ldexp(rnd.random(), rnd.randint(-1000, 400))
+
+RAISED = []      # finite inputs on which distance() raised something other than OverflowError
+
+def reference_distance(p, q):
+    """the Euclidean distance to 40 digits, from exact rational arithmetic"""
+    import fractions, decimal
+    s = sum((fractions.Fraction(b) - fractions.Fraction(a)) ** 2 for a, b in zip(p, q))
+    with decimal.localcontext() as ctx:
+        ctx.prec = 60
+        return (decimal.Decimal(s.numerator) / decimal.Decimal(s.denominator)).sqrt()
+
+def far_from_euclidean(p, q, d):
+    """is d further from the true Euclidean distance than rounding can explain?"""
+    import decimal
+    ref = reference_distance(p, q)
+    if d != d or d in (math.inf, -math.inf):
+        return True
+    err = abs(decimal.Decimal(d) - ref)
+    tol = max(abs(ref) * decimal.Decimal(2) ** -48, decimal.Decimal(5e-324) * 4)
+    if ref < decimal.Decimal(2.3e-308):
+        tol = decimal.Decimal(1e-160)          # squares that underflow: the code loses them legitimately
+    return err > tol
 
 def gen_cases(rnd, n_dist, n_lat):
     from simplicial import SimplicialComplex, Embedding, TriangularLattice, TriangularLatticeEmbedding
     dist = []
     for i in range(n_dist):
-        dim = rnd.randint(1, 4); kind = i % 6
+        dim = rnd.randint(1, 4); kind = i % 7
         p = [draw_coord(rnd, kind) for _ in range(dim)]
-        q = [draw_coord(rnd, kind if rnd.random() < 0.8 else rnd.randrange(6)) for _ in range(dim)]
+        q = [draw_coord(rnd, kind if rnd.random() < 0.8 else rnd.randrange(7)) for _ in range(dim)]
         if rnd.random() < 0.1: q = list(p)
         e = Embedding(SimplicialComplex(), dim)
         try:
             d = e.distance(p, q)
         except OverflowError:
             continue            # outside the model's scope (see the module comment)
+        except Exception as ex:
+            RAISED.append({'kind': 'distance-raises', 'p': [float(x).hex() for x in p], 'q': [float(x).hex() for x in q],
+                           'python_types': sorted({type(x).__name__ for x in p + q}), 'exception': '%s: %s' % (type(ex).__name__, ex)})
+            continue
+        d = float(d)
         # eps: at, just below, just above the distance, or unrelated
         eps = rnd.choice([d, math.nextafter(d, -math.inf), math.nextafter(d, math.inf), -1.0, 0.0, draw_coord(rnd, kind)])
         dist.append((p, q, d, eps, d <= eps))
@@ -84,6 +113,7 @@ Eval vm_compute in RESULT.
 def run(seed, n_dist, n_lat, keep=None):
     """returns (stats, failures): failures = list of dicts describing the cases on which model and code differ"""
     rnd = random.Random(seed)
+    del RAISED[:]
     dist, lat = gen_cases(rnd, n_dist, n_lat)
     d = tempfile.mkdtemp(prefix='fc.', dir='/var/tmp')
     try:
@@ -100,16 +130,18 @@ def run(seed, n_dist, n_lat, keep=None):
         fails = []
         for i in fd:
             p, q, dd, eps, c = dist[i]
-            fails.append({'kind': 'distance', 'p': [x.hex() for x in p], 'q': [x.hex() for x in q], 'impl_distance': dd.hex(),
-                          'eps': eps.hex(), 'impl_close': c})
+            fails.append({'kind': 'distance', 'p': [float(x).hex() for x in p], 'q': [float(x).hex() for x in q], 'impl_distance': dd.hex(),
+                          'eps': float(eps).hex(), 'impl_close': c, 'python_types': sorted({type(x).__name__ for x in p + q}),
+                          'not_euclidean': far_from_euclidean(p, q, dd)})
+        fails += list(RAISED)
         for i in fl_:
             nr, nc, h, w, n, x, y = lat[i]
             fails.append({'kind': 'lattice', 'rows': nr, 'cols': nc, 'h': h.hex(), 'w': w.hex(), 'n': n, 'impl_x': x.hex(), 'impl_y': y.hex()})
         kinds = {}
         for i, c in enumerate(dist):
-            kinds[i % 6] = kinds.get(i % 6, 0) + 1
+            kinds[i % 7] = kinds.get(i % 7, 0) + 1
         stats = {'distance_cases': len(dist), 'lattice_cases': len(lat), 'ties_at_eps': sum(1 for c in dist if c[2] == c[3]),
-                 'coordinate_kinds': 'integers, decimals, uniform, zeros/subnormals/tiny, wide exponents, ldexp', 'differing': len(fails)}
+                 'coordinate_kinds': 'integers, decimals, uniform, zeros/subnormals/tiny, wide exponents, ldexp, Python ints up to 2^45', 'differing': len(fails)}
         if keep and fails:
             shutil.copy(path, keep)
         return stats, fails
